@@ -36,3 +36,14 @@ Definition run_advertise (p : bool * string * option string * list string) : V :
   let d := advertise media_level [("sha-256", h)] so mo in
   VL [fp_values (d_session d); VL (map fp_values (d_media d));
       Vresult (fun r => VL [VS (fst r); VS (snd r)]) (extract_fingerprint d)].
+
+(* ---- connected pairs: (fingerprint the verifying side holds, hash table of
+        the certificate the peer presents) -> [signalling succeeded; DTLS
+        reached connected], under the assumed contract "the handshake completes
+        iff the verification callback returns nil" ---- *)
+Definition run_conn (p : list (string * string) * list (string * option string)) : V :=
+  VL [VB true;
+      VB (match validate unit (fun a _ => table_lookup (snd p) a) (fst p) tt with
+          | Ok _ => true
+          | _ => false
+          end)].
